@@ -450,6 +450,15 @@ void TigaPropertyBuilder::dropClauses()
     _imitation = nullptr;
 }
 
+void TigaPropertyBuilder::clear()
+{
+    // the declarations point into the list of properties
+    declarations.clear();
+    dropClauses();
+    created = false;
+    PropertyBuilder::clear();
+}
+
 void TigaPropertyBuilder::property()
 {
     const auto count = properties.size();
